@@ -125,11 +125,12 @@ def MMems.keysGt (k0 : String) : MMems → Prop
 
 mutual
 /-- Well-formedness (conformance): leaves are scalars; member names are sorted, unique and not
-reserved; every marked member's digest is listed in its object's `_sd`. -/
+reserved; every marked member's digest is listed in its object's `_sd`, and the marked members of
+one object have different digests. -/
 def MJ.WF : MJ → Prop
   | .leaf j => J.scalar j
   | .arr xs => xs.WF
-  | .obj ms sd => ms.WF ∧ (∀ g, g ∈ ms.marks → g ∈ sd.getD [])
+  | .obj ms sd => ms.WF ∧ (∀ g, g ∈ ms.marks → g ∈ sd.getD []) ∧ ms.marks.Nodup
 def MElems.WF : MElems → Prop
   | .nil => True
   | .clear x r => x.WF ∧ r.WF
@@ -217,3 +218,120 @@ def MMems.paths (p : String) : MMems → List (String × String)
   | .clear k x r => x.paths (Path.fmtPath p k) ++ r.paths p
   | .marked k dg x r => (Path.fmtPath p k, dg) :: (x.paths (Path.fmtPath p k) ++ r.paths p)
 end
+
+/-! ## The holder's working copy as a marked tree
+
+While disclosures are put back one by one, the working copy of the claims is always the payload
+of a marked tree: `revealTop g` turns the *visible* node marked `g` into a clear node. -/
+
+mutual
+/-- turn the visible (not nested in another marked node) node marked `g` into a clear node; the
+digest of a member stays in its object's `_sd`, as it does in the code -/
+def MJ.revealTop (g : String) : MJ → MJ
+  | .leaf j => .leaf j
+  | .arr xs => .arr (xs.revealTop g)
+  | .obj ms sd => .obj (ms.revealTop g) sd
+def MElems.revealTop (g : String) : MElems → MElems
+  | .nil => .nil
+  | .clear x r => .clear (x.revealTop g) (r.revealTop g)
+  | .marked dg x r => if dg = g then .clear x (r.revealTop g) else .marked dg x (r.revealTop g)
+  | .decoy dg r => .decoy dg (r.revealTop g)
+def MMems.revealTop (g : String) : MMems → MMems
+  | .nil => .nil
+  | .clear k x r => .clear k (x.revealTop g) (r.revealTop g)
+  | .marked k dg x r => if dg = g then .clear k x (r.revealTop g) else .marked k dg x (r.revealTop g)
+end
+
+mutual
+/-- the digests visible in the payload: `_sd` contents, element marks and array decoys that are
+not inside a marked node -/
+def MJ.vdigests : MJ → List String
+  | .leaf _ => []
+  | .arr xs => xs.vdigests
+  | .obj ms sd => sd.getD [] ++ ms.vdigests
+def MElems.vdigests : MElems → List String
+  | .nil => []
+  | .clear x r => x.vdigests ++ r.vdigests
+  | .marked dg _ r => dg :: r.vdigests
+  | .decoy dg r => dg :: r.vdigests
+def MMems.vdigests : MMems → List String
+  | .nil => []
+  | .clear _ x r => x.vdigests ++ r.vdigests
+  | .marked _ _ _ r => r.vdigests
+end
+
+mutual
+/-- visible digests that belong to no visible marked node: decoys, and the digests of members
+that have already been revealed -/
+def MJ.stale : MJ → List String
+  | .leaf _ => []
+  | .arr xs => xs.stale
+  | .obj ms sd => (sd.getD []).filter (fun g => !ms.marks.contains g) ++ ms.stale
+def MElems.stale : MElems → List String
+  | .nil => []
+  | .clear x r => x.stale ++ r.stale
+  | .marked _ _ r => r.stale
+  | .decoy dg r => dg :: r.stale
+def MMems.stale : MMems → List String
+  | .nil => []
+  | .clear _ x r => x.stale ++ r.stale
+  | .marked _ _ _ r => r.stale
+end
+
+mutual
+/-- the disclosures of the visible marked nodes -/
+def MJ.topDiscs : MJ → List SDisc
+  | .leaf _ => []
+  | .arr xs => xs.topDiscs
+  | .obj ms _ => ms.topDiscs
+def MElems.topDiscs : MElems → List SDisc
+  | .nil => []
+  | .clear x r => x.topDiscs ++ r.topDiscs
+  | .marked dg x r => ⟨dg, none, x.payload⟩ :: r.topDiscs
+  | .decoy _ r => r.topDiscs
+def MMems.topDiscs : MMems → List SDisc
+  | .nil => []
+  | .clear _ x r => x.topDiscs ++ r.topDiscs
+  | .marked k dg x r => ⟨dg, some k, x.payload⟩ :: r.topDiscs
+end
+
+mutual
+/-- the JSON pointer (in the payload) of the visible node(s) marked `g` -/
+def MJ.tpaths (g : String) (p : String) : MJ → List String
+  | .leaf _ => []
+  | .arr xs => xs.tpaths g p 0
+  | .obj ms _ => ms.ownPaths g p ++ ms.tpaths g p
+def MElems.tpaths (g : String) (p : String) (i : Nat) : MElems → List String
+  | .nil => []
+  | .clear x r => x.tpaths g (Path.fmtPath p (toString i)) ++ r.tpaths g p (i+1)
+  | .marked dg _ r => (if dg = g then [Path.fmtPath p (toString i)] else []) ++ r.tpaths g p (i+1)
+  | .decoy _ r => r.tpaths g p (i+1)
+/-- paths found below the clear members (the walk over the members) -/
+def MMems.tpaths (g : String) (p : String) : MMems → List String
+  | .nil => []
+  | .clear k x r => x.tpaths g (Path.fmtPath p k) ++ r.tpaths g p
+  | .marked _ _ _ r => r.tpaths g p
+/-- path of this object's own member marked `g` (the `_sd` step of the object) -/
+def MMems.ownPaths (g : String) (p : String) : MMems → List String
+  | .nil => []
+  | .clear _ _ r => r.ownPaths g p
+  | .marked k dg _ r => (if dg = g then [Path.fmtPath p k] else []) ++ r.ownPaths g p
+end
+
+/-- visible marks below the clear members (what the walk over the members of an object can find) -/
+def MMems.belowMarks : MMems → List String
+  | .nil => []
+  | .clear _ x r => x.topMarks ++ r.belowMarks
+  | .marked _ _ _ r => r.belowMarks
+
+/-- reveal below the clear members only -/
+def MMems.revealBelow (g : String) : MMems → MMems
+  | .nil => .nil
+  | .clear k x r => .clear k (x.revealTop g) (r.revealBelow g)
+  | .marked k dg x r => .marked k dg x (r.revealBelow g)
+
+/-- this object's own member marked `g` -/
+def MMems.findOwn (g : String) : MMems → Option (String × MJ)
+  | .nil => none
+  | .clear _ _ r => r.findOwn g
+  | .marked k dg x r => if dg = g then some (k, x) else r.findOwn g
